@@ -10,6 +10,29 @@ use super::*;
 mod spec;
 use spec::*;
 
+// vp: props=C15; tag=C15.huff.spec.table; kind=complete; tier=quick
+// sanity of the oracle itself: SPEC_HUFF_TABLE_OK is evaluated by rustc at compile time (per-length symbol counts
+// 5:10 6:26 7:32 8:6 10:5 11:3 12:2 13:6 14:2 15:3 19:3 20:8 21:13 22:26 23:29 24:12 25:4 26:15 27:19 28:29 30:4,
+// Kraft sum == 2^30, EOS == 0x3fffffff, no code a prefix of another; the file does not even build otherwise);
+// plus a handful of (code, length) pairs quoted from RFC 7541 Appendix B, one per length class.
+#[kani::proof]
+fn c15_huff_spec_table_ok() {
+    assert!(SPEC_HUFF_TABLE_OK);
+    let quoted: [(usize, u32, u8); 14] = [
+        (b'0' as usize, 0x0, 5), (b'a' as usize, 0x3, 5), (b' ' as usize, 0x14, 6), (b'A' as usize, 0x21, 6),
+        (b':' as usize, 0x5c, 7), (b'&' as usize, 0xf8, 8), (b'!' as usize, 0x3f8, 10), (0, 0x1ff8, 13),
+        (b'\\' as usize, 0x7fff0, 19), (255, 0x3ffffee, 26), (249, 0xffffffe, 28), (10, 0x3ffffffc, 30),
+        (22, 0x3ffffffe, 30), (256, 0x3fffffff, 30),
+    ];
+    let mut i = 0;
+    while i < 14 {
+        let (c, code, len) = quoted[i];
+        assert!(SPEC_HUFF_CODE[c] == code && SPEC_HUFF_LEN[c] == len, "C15.huff.spec.table: derived code differs from RFC 7541 App. B");
+        i += 1;
+    }
+    kani::cover!(i == 14);
+}
+
 /// the code stored in a table entry, the way `put` consumes it: whole octets first, the last octet holds the
 /// remaining bit_count % 8 bits right-aligned (only its low bits are used)
 fn entry_code(e: &EncodeValue) -> u64 {
